@@ -175,6 +175,35 @@ def actLine (w : World) (d? : Option Delivery) (a : Act) (id : Nat) : World × S
     (w', outLine (match done with | some r => resName r | none => "pend") (printToks d w.store toks))
   | _, _ => (w, "bad-op")
 
+/-- the well-formed delivery behind a `big <path> <kind> <delta>` line (nothing held; only the size varies) -/
+def bigDelivery (client : Bool) (kind : String) : Option Delivery :=
+  let pay : PayD := ⟨[⟨0, 0, true, true, true, true, 5⟩, ⟨1, 1, true, true, true, true, 2⟩, ⟨2, 2, true, true, true, true, 3⟩], [0, 1, 2]⟩
+  match kind with
+  | "chunk" => some ⟨client, .chunk, 0, .chunk 0, none⟩
+  | "chunkp" => some ⟨client, .chunkp, 0, .chunk 0, some pay⟩
+  | "pad" => some ⟨client, .pad, 1, .pad 0 1 true, none⟩
+  | "padp" => some ⟨client, .padp, 1, .pad 0 1 true, some pay⟩
+  | "junk" => some ⟨client, .chunk, 0, .bad, none⟩
+  | "junkp" => some ⟨client, .chunkp, 0, .bad, some pay⟩
+  | _ => none
+
+/-- `MAX_PACKET_SIZE + delta` (delta may be negative).  Exact for the unsigned kinds (chunk, junk, junkp); a signed
+record (pad, padp, chunkp) cannot be built to an exact length, the harness builds it within 63 bytes of the length
+64 bytes further away from the limit: any such length is on the same strict side, the model takes that aim. -/
+def bigLen (kind delta : String) : Option Nat :=
+  let signed := kind == "pad" || kind == "padp" || kind == "chunkp"
+  if delta.startsWith "-" then (delta.drop 1).toString.toNat?.map (fun n => maxPacketSize - n - (if signed then 64 else 0))
+  else delta.toNat?.map (fun n => maxPacketSize + n + (if signed then 64 else 0))
+
+def bigLine (client : Bool) (kind delta : String) : Option String := do
+  let d ← bigDelivery client kind
+  let len ← bigLen kind delta
+  match validateSized len d [] with
+  | none => pure "tooLarge puts=0"
+  | some (r, toks) =>
+    let puts := (toks.filter fun | .W _ _ => true | _ => false).length
+    pure s!"{resName r} puts={puts}"
+
 def step (w : World) (ws : List String) : World × String :=
   match ws with
   | "case" :: st :: rest =>
@@ -199,6 +228,14 @@ def step (w : World) (ws : List String) : World × String :=
     | _ => (w, "bad-op")
   | ["run", id] => actLine w none (.run (idOf id)) (idOf id)
   | ["dump"] => (w, "store " ++ storeStr w.store)
+  | ["evict", k] =>
+    match k.toNat? with
+    | some k => ((w.act (.remove k)).1, if (w.store.get k).isSome then "evicted" else "absent")
+    | none => (w, "bad-op")
+  | ["big", p, kind, delta] =>
+    match (match p with | "c" => some true | "r" => some false | _ => none) with
+    | some client => (w, (bigLine client kind delta).getD "bad-op")
+    | none => (w, "bad-op")
   | ["close", r, ps] =>
     -- routing-table peers in order of increasing distance; a new chunk paid to this node (twice) and to the
     -- peer at rank `r`, validated against the close set the driver serves
@@ -298,13 +335,39 @@ def candidateLines : List String := [
   "case - r pad 1 S0.3.w -", "case - r tx 1 T0.1.i -", "case - r tx 1 T1.2.v -"
 ]
 
+/-- histories in which the store drops the key between a validation's existence test and its read of the local
+copy; a put without a (valid) payment must not survive any of them: the store has to end up empty -/
+def historyCandidates : List (List String) :=
+  let bad := "0.0.1.e.1.1.5,1.1.1.f.1.1.2,2.2.1.f.1.1.3;0.1.2"
+  [ ["new 1=S3", "begin a c pad 1 S0.5.v -", "ans a", "evict 1", "run a", "ans a", "run a", "dump"],
+    ["new 1=S3", "begin a c pad 1 S0.1.v -", "ans a", "evict 1", "run a", "ans a", "run a", "dump"],
+    ["new 2=R1", "begin a c reg 2 R0.g.2v -", "ans a", "evict 2", "run a", "ans a", "run a", "dump"],
+    ["new 2=R1", "begin a c reg 2 R0.g.2v -", "ans a", "run a", "ans a", "evict 2", "run a", "ans a", "run a", "dump"],
+    ["new 1=T1", s!"begin a c txp 1 T0.2.v {bad}", "ans a", "evict 1", "run a", "ans a", "run a", "dump"],
+    ["new 2=R1", s!"begin a c regp 2 R0.g.2v {bad}", "ans a", "evict 2", "run a", "ans a", "run a", "dump"] ]
+
+/-- run a history through the model; does the store end up non-empty? -/
+def historyViolates (h : List String) : Bool :=
+  let w := h.foldl (fun w l => (step w (words l)).1) (⟨[], []⟩ : World)
+  !w.store.isEmpty
+
+/-- oversized records the model would let through on a path -/
+def bigCandidates : List String :=
+  ["big r chunk 0", "big r chunk 1", "big r chunk 1000000", "big r pad 4000000", "big c chunkp 1000", "big c junkp 0", "big r junk 0"].filter fun l =>
+    match words l with
+    | ["big", p, kind, delta] =>
+      match bigDelivery (p == "c") kind, bigLen kind delta with
+      | some d, some len => (validateSized len d []).isSome
+      | _, _ => false
+    | _ => false
+
 def searchCandidates : List String :=
-  candidateLines.filter fun l =>
+  (candidateLines.filter fun l =>
     match words l with
     | "case" :: st :: rest =>
       match parseStore st, parseDelivery rest with
       | some s, some d => violates s d
       | _, _ => false
-    | _ => false
+    | _ => false) ++ (historyCandidates.filter historyViolates).flatten ++ bigCandidates
 
 end SafeNet.Driver.Validate
